@@ -513,3 +513,15 @@ fn c09_next_equals_slice_step_w2_m1_x4() {
 fn c09_next_equals_slice_step_w3_m5_x6() {
     next_equals_slice_step(cfg_bits(3, 5, 6));
 }
+
+/// unit hasher for harnesses that only exercise the chunker's own arithmetic (proofs/archive.rs)
+impl RollingHash for () {
+    fn init_done(&self) -> bool {
+        true
+    }
+    fn init(&mut self, _value: u8) {}
+    fn input(&mut self, _value: u8) {}
+    fn sum(&self) -> u32 {
+        0
+    }
+}
